@@ -5,7 +5,7 @@ CONSTANTS
   MaxInterior = 3
   KVals <- KValsQ
   Eps <- Eps64
-  MaxGenExtra = 4
+  MaxGenExtra = 16
   SpanInterior = 6
 INVARIANT T_SpanUnique
 INVARIANT T_SpanAlgos
